@@ -164,7 +164,15 @@ func c18Run(s *c18Scn, segName string, enc *json.Encoder, mu *sync.Mutex) verdic
 		}
 
 		if k < len(s.NextTimeout) && s.NextTimeout[k] {
-			o = append(o, opoptions.WithCallbackNextTimeout(300*time.Millisecond))
+			nt := 300 * time.Millisecond
+
+			for _, sg := range s.Segs {
+				if strings.HasSuffix(sg, "-long") {
+					nt = 2 * time.Second // as for the operation's own wait below: long enough for the listing to be delivered
+				}
+			}
+
+			o = append(o, opoptions.WithCallbackNextTimeout(nt))
 		}
 
 		cb, cerr := generic.NewCallback(func(dd *generic.Driver, arg string) error {
@@ -305,8 +313,18 @@ func c18Run(s *c18Scn, segName string, enc *json.Encoder, mu *sync.Mutex) verdic
 
 	var oerr error
 
-	fin, pan := withWatchdog(20*time.Second, func() {
-		r, e := d.SendWithCallbacks("go", cbs, 250*time.Millisecond)
+	// the time the operation waits for a trigger: long enough for the device to deliver what it says (a listing of 1 150 bytes, one
+	// byte per read, on a loaded machine) - what is compared at a time-out is everything the device delivered
+	opWait := 250 * time.Millisecond
+
+	for _, sg := range s.Segs {
+		if strings.HasSuffix(sg, "-long") {
+			opWait = 2 * time.Second
+		}
+	}
+
+	fin, pan := withWatchdog(40*time.Second, func() {
+		r, e := d.SendWithCallbacks("go", cbs, opWait)
 		oerr = e
 
 		if r != nil {
